@@ -78,6 +78,43 @@ static int64_t zigzag_decode64(uint64_t n) {
 }
 
 /* ============================================================================
+ * Bit packing of wide (33..64 bit) deltas, LSB first
+ * ============================================================================
+ */
+
+/* Read bit_width bits starting at bit offset bit_pos of data */
+static uint64_t unpack_bits64(const uint8_t* data, size_t bit_pos, int bit_width) {
+    uint64_t value = 0;
+    int done = 0;
+    while (done < bit_width) {
+        size_t byte = bit_pos >> 3;
+        int offset = (int)(bit_pos & 7);
+        int n = 8 - offset;
+        if (n > bit_width - done) n = bit_width - done;
+        uint64_t bits = ((uint64_t)data[byte] >> offset) & ((1u << n) - 1);
+        value |= bits << done;
+        done += n;
+        bit_pos += (size_t)n;
+    }
+    return value;
+}
+
+/* OR the low bit_width bits of value into zero-initialised data at bit offset bit_pos */
+static void pack_bits64(uint8_t* data, size_t bit_pos, int bit_width, uint64_t value) {
+    int done = 0;
+    while (done < bit_width) {
+        size_t byte = bit_pos >> 3;
+        int offset = (int)(bit_pos & 7);
+        int n = 8 - offset;
+        if (n > bit_width - done) n = bit_width - done;
+        uint64_t bits = (value >> done) & ((1u << n) - 1);
+        data[byte] |= (uint8_t)(bits << offset);
+        done += n;
+        bit_pos += (size_t)n;
+    }
+}
+
+/* ============================================================================
  * Delta Decoder Implementation
  * ============================================================================
  */
@@ -190,21 +227,23 @@ static carquet_status_t delta_decoder_read_mini_block(delta_decoder_t* dec) {
 
         dec->pos += packed_size;
     } else {
-        /* Unpack 64-bit values (stored as little-endian bytes) */
-        int bytes_per_value = (bit_width + 7) / 8;
-        size_t packed_size = mini_block_size * bytes_per_value;
+        /* Deltas wider than 32 bits are bit-packed like every other width */
+        if (bit_width > 64) {
+            return CARQUET_ERROR_DECODE;
+        }
+        size_t packed_size = ((size_t)mini_block_size * (size_t)bit_width + 7) / 8;
         if (dec->pos + packed_size > dec->size) {
             return CARQUET_ERROR_DECODE;
         }
 
         for (int i = 0; i < mini_block_size; i++) {
-            uint64_t val = 0;
-            for (int b = 0; b < bytes_per_value; b++) {
-                val |= (uint64_t)dec->data[dec->pos++] << (b * 8);
-            }
+            uint64_t val = unpack_bits64(dec->data + dec->pos,
+                                         (size_t)i * (size_t)bit_width, bit_width);
             /* Use unsigned addition to avoid overflow UB */
             dec->mini_block_values[i] = (int64_t)((uint64_t)dec->min_delta + val);
         }
+
+        dec->pos += packed_size;
     }
 
     dec->current_mini_block++;
@@ -389,13 +428,8 @@ static carquet_status_t delta_encoder_flush_block(delta_encoder_t* enc) {
         bit_widths[mb] = (uint8_t)bit_width_required(max_val);
         if (bit_widths[mb] > 0) {
             /* Calculate bytes needed for this mini-block */
-            if (bit_widths[mb] <= 32) {
-                /* Bitpacked: mini_block_size values * bit_width / 8 */
-                packed_bytes_needed += (size_t)mini_block_size * bit_widths[mb] / 8;
-            } else {
-                /* Byte-by-byte: mini_block_size values * bytes_per_value */
-                packed_bytes_needed += (size_t)mini_block_size * ((bit_widths[mb] + 7) / 8);
-            }
+            /* Bitpacked: mini_block_size values * bit_width / 8 */
+            packed_bytes_needed += ((size_t)mini_block_size * bit_widths[mb] + 7) / 8;
         }
     }
 
@@ -434,21 +468,17 @@ static carquet_status_t delta_encoder_flush_block(delta_encoder_t* enc) {
             enc->pos += carquet_bitpack_32(to_pack, mini_block_size,
                                             bit_widths[mb], enc->data + enc->pos);
         } else {
-            /* For bit widths > 32, pack directly as bytes (little-endian) */
-            int bytes_per_value = (bit_widths[mb] + 7) / 8;
+            /* Bit widths > 32 are bit-packed too (LSB first), 64 bits at a time */
+            size_t packed_size = ((size_t)mini_block_size * bit_widths[mb] + 7) / 8;
+            /* Zero fill: also pads the mini-block beyond the last value */
+            memset(enc->data + enc->pos, 0, packed_size);
             for (int i = start; i < end; i++) {
                 /* Use unsigned subtraction to avoid overflow UB */
                 uint64_t adjusted = (uint64_t)enc->deltas[i] - (uint64_t)min_delta;
-                for (int b = 0; b < bytes_per_value; b++) {
-                    enc->data[enc->pos++] = (uint8_t)(adjusted >> (b * 8));
-                }
+                pack_bits64(enc->data + enc->pos,
+                            (size_t)(i - start) * bit_widths[mb], bit_widths[mb], adjusted);
             }
-            /* Pad with zeros */
-            for (int i = end - start; i < mini_block_size; i++) {
-                for (int b = 0; b < bytes_per_value; b++) {
-                    enc->data[enc->pos++] = 0;
-                }
-            }
+            enc->pos += packed_size;
         }
     }
 
